@@ -147,7 +147,7 @@ func (r *Reader) request(pos int64, limit int64) (<-chan struct{}, error) {
 		r.torrent.Request(c.index, c.prio, false, false)
 	}
 
-	if len(chunks) > 0 {
+	if len(chunks) > 0 && err == nil {
 		r.requestedIndex = int(chunks[0].index)
 	} else {
 		r.requestedIndex = -1
